@@ -28,7 +28,7 @@ def layout(tys):
     return total, align, padded
 
 
-def emit(modname, tys, name, generic=False, dbg_bytes=None, default_idx=0, with_default_expr=False, pretty_max=8):
+def emit(modname, tys, name, generic=False, dbg_bytes=None, default_idx=0, with_default_expr=False, pretty_max=8, decl_wrap=None):
     """name: None (default) | 'Rn' | False.  dbg_bytes: list of concrete byte patterns or 'sym'"""
     n, align, padded = layout(['u8' if t == 'G' else t for t in tys])
     g = '<G: Copy>' if generic else ''
@@ -51,6 +51,8 @@ def emit(modname, tys, name, generic=False, dbg_bytes=None, default_idx=0, with_
         fields += f'{at}    pub {FN[i]}: {t},\n'
     traits = f'Debug({dparams}), PartialEq(unsafe), Eq, Hash(unsafe), Copy, Clone' + (', Default' if can_default else '')
     decl = f'#[derive(Educe)]\n#[educe({traits})]\npub union Un{g} {{\n{fields}}}\nconst _: () = assert!(core::mem::size_of::<Un{ga}>() == {n});\n'
+    if decl_wrap:
+        decl = decl_wrap(decl)      # C19: the derive site moved into a hostile module
     shown = 'Un' if name is None else (name or None)
     if shown:
         orc = f'f.debug_tuple("{shown}").field(&&self.0[..]).finish()'
